@@ -47,6 +47,7 @@ type Point struct {
 	Chosen     int    // index into Enabled
 	Cur        int    // id of the thread that reached the point (-1: initial)
 	CurEnabled bool   // the running thread could have continued (choosing another = preemption)
+	Free       bool   // a voluntary yield (boundary between two harness operations): switching away costs no preemption
 	Label      string // what the running thread was about to do
 }
 
@@ -217,7 +218,8 @@ func (s *Sched) schedule(me *Thread, label string) {
 		for i, t := range en {
 			ids[i] = t.ID
 		}
-		s.Points = append(s.Points, Point{Enabled: ids, Chosen: idx, Cur: me.ID, CurEnabled: meEnabled, Label: label})
+		s.Points = append(s.Points, Point{Enabled: ids, Chosen: idx, Cur: me.ID, CurEnabled: meEnabled, Label: label,
+			Free: len(label) >= 7 && label[:7] == "op-next"})
 		s.step++
 	}
 	next := en[idx]
